@@ -222,6 +222,11 @@ class t2grid(object):
             for rt in grid.rocktypelist: result.add_rocktype(rt)
             for blk in grid.blocklist: result.add_block(blk)
             for con in grid.connectionlist: result.add_connection(con)
+        # where both grids have a rocktype of the same name, only one of them is
+        # kept- make sure all blocks refer to the rocktypes in the result:
+        for blk in result.blocklist:
+            if blk.rocktype.name in result.rocktype:
+                blk.rocktype = result.rocktype[blk.rocktype.name]
         return result
 
     def embed(self, subgrid, connection):
